@@ -11,6 +11,7 @@ mod props;
 mod refmodel;
 mod refmodel2;
 mod lockstep;
+mod single;
 mod spec;
 mod footprint;
 mod exec;
@@ -84,6 +85,16 @@ fn main() {
     let known = load_known(&prop);
     let known_keys: BTreeSet<String> = known.iter().map(|k| k.key.clone()).collect();
 
+    if args[2] == "--leg" {
+        let lseed: u64 = args.get(3).and_then(|s| s.parse().ok()).unwrap_or(1);
+        let n: u64 = args.get(4).and_then(|s| s.parse().ok()).unwrap_or(0);
+        props::leg(&prop, lseed, n, &args[5..]);
+        std::process::exit(0);
+    }
+    if args[2] == "--digest" {
+        props::c04::digest_file(args.get(3).map(|s| s.as_str()).unwrap_or(""));
+        std::process::exit(0);
+    }
     if args[2] == "--replay" {
         let file = args.get(3).expect("--replay FILE");
         let txt = std::fs::read_to_string(file).expect("read replay file");
